@@ -2,3 +2,31 @@ claim("C03", "small-scope exhaustive enumeration of operand pairs on the real op
       "Every ordered pair of Pauli strings on <=3 qubits, coefficient grid, scalar mixes, powers, all ordered pairs of a pool of <=3-term sums, simplify and == are executed on the real classes and compared with dense matrices built from the definition of X,Y,Z; complete for the stated bounds.",
       "Trusts numpy dense arithmetic and the small-scope hypothesis (multiplication acts qubit-by-qubit; no size-dependent branch beyond 3 qubits / 3 terms). Coefficients stay away from the 1e-8 tolerance edge.",
       "DESIGN.md 4/C03")
+claim("C01", "small-scope exhaustive enumeration of circuits/index tuples + exhaustive enumeration of native/non-native labelings (scripted predicate) on the real classes vs a bit-arithmetic embedding reference",
+      "Every gate of the alphabet on every register width and every ordered index tuple, every circuit of bounded length over a 3-qubit operation alphabet, every ordered pair of pool circuits for concatenation, and every circuit x every one of the 2^L native/non-native labelings x initial states for simulators are executed on the real code and compared with an independent reference; complete for the stated bounds.",
+      "Gate matrices themselves are taken from the library (C02/C07 decide them). Small-scope hypothesis: embedding, product order and segment threading have no size-dependent branch beyond 5 qubits / 4 operations.",
+      "DESIGN.md 4/C01")
+claim("C04", "small-scope exhaustive enumeration of state-preparing circuits + deviation-bounded exhaustive enumeration of scripted sampler answers (owned default_rng seam)",
+      "All circuits up to the length bound over an asymmetric-state alphabet; for each, all 2^n Z-subsets, all outcome keys and every execution of the sampler within the deviation bound in both internal sampling regimes are checked against the reference state.",
+      "default_rng(seed).choice is the only randomness (other entry points are trapped and would abort the check); picks restricted to entries with p > 1e-12.",
+      "DESIGN.md 4/C04")
+claim("C09", "small-scope exhaustive enumeration of operators, widths, matrices and polarisation states vs dense reference matrices",
+      "All Pauli strings with <=3 factors on indices 0..3 with gaps, sums from a pool incl. duplicates/zero/empty, every width in [own-1, own+2], all E_ij/Pauli matrices and sums of two for the expansion, polarisation set of states for expectation values; complete for the bounds.",
+      "numpy dense arithmetic; linearity of the expansion argues that unit matrices and pairs span its behaviours.",
+      "DESIGN.md 4/C09")
+claim("C10", "small-scope exhaustive enumeration of shot multisets x operators (exact Fraction reference) + exhaustive enumeration of mutation/query histories on one Measurements object",
+      "Every multiset of bitstrings up to the width/shot bound (two list orders), every ordered list of <=3 Z-subsets as operator, Bessel on/off, every count/distribution/parity query, and every history of <=D public mutations and queries; complete for the bounds.",
+      "Fraction arithmetic as oracle; floats compared at 1e-12.",
+      "DESIGN.md 4/C10")
+claim("C12", "explicit-state breadth-first search over assignment/binding histories on real Wavefunction objects, states de-duplicated by canonical amplitude tuple, every transition compared with a list model",
+      "All histories up to the depth bound from numeric, symbolic and mixed roots; every transition judged (reject => unchanged, accept => written and normalised), invariant evaluated in every state; Dicke states for all n,k in range, bit reversal on index vectors, save/load on reachable states.",
+      "Canonical state = amplitude tuple (a Wavefunction has no other field). Alphabet keeps norms away from the np.isclose edge.",
+      "DESIGN.md 4/C12")
+claim("C13", "exhaustive enumeration of integer inputs + exhaustive (thorough) / deviation-bounded (quick) enumeration of every answer of the scripted np.random.choice seam",
+      "All count lists/maxima/batch sizes/weight lists in the stated ranges are enumerated; for get_measurements_representing_distribution every RNG answer script within the bound is executed on the real code (prefix replay on fresh objects) and the shot count/support invariants checked.",
+      "np.random.choice is the only randomness used (trapped otherwise); the double enforces numpy's own argument checks.",
+      "DESIGN.md 4/C13")
+claim("C14", "exhaustive enumeration of call histories (no state merging) on every runner kind vs a reference model of validation, execution log, counters, results and tracker file",
+      "Every history of <=2 (quick) / <=3 (thorough, core menu) calls from a menu of valid and invalid requests on 8 runner kinds; every call is compared with the model on exception, execution log, counters of each layer, results and the tracker's JSON file.",
+      "Scripted RNG with default answers; zero-width circuits, non-gate circuits under the tracker and unbound circuits inside batches are outside the alphabet.",
+      "DESIGN.md 4/C14")
